@@ -28,6 +28,7 @@ for c in checks:
         r = subprocess.run(["/verif/check", c], env=env, stdout=subprocess.PIPE, stderr=subprocess.STDOUT, text=True)
         keys = re.findall(r"violated: (\S.*?) at ", r.stdout)
         print(c, "exit", r.returncode, keys[:3])
+        keys = [k for k in keys if not k.startswith("anchor|internal error")]
         if r.returncode == 1 and keys:
             detected.append({"check": c, "expect": keys[0]})
     finally:
